@@ -5,7 +5,7 @@ PROPS["C02"] = {
     "rule": "one evaluation = one (extractor, required path, input bytes) fed to Extract the way the walk does it (file opened through the scan FS, Root set); non-trivial = Extract produced at least one package, returned an error or panicked (the input reached the extractor's parser/validator); distinct by (extractor, path, SHA-256 of the input bytes). Classes 'ext:<name>:<result>' are the per-extractor outcome table (ok_packages, ok_empty, error, error_with_packages, panic, overrun), 'mut:<op>' the mutator distribution, 'containment_scan' the number of real Scanner.Scan containment checks (each under one of the option sets ErrorOnFSErrors / StoreAbsolutePath / UseGitignore / PrintDurationAnalysis)",
     "assumptions": [
         "all 58 built-in filesystem extractors of list.All except java/pomxmlnet (needs network) are exercised; required paths come from probing FileRequired with production paths and the names under each extractor's testdata",
-        "seeds: every fixture under the extractor's testdata up to 256 KiB (the first 256 KiB of larger ones), minus the fixture files emptied in this sandbox, plus a few tiny literal documents; inputs are capped at 256 KiB",
+        "seeds: every fixture under the extractor's testdata up to 256 KiB (larger ones are not used), minus the fixture files emptied in this sandbox, plus a few tiny literal documents; inputs are capped at 256 KiB",
         "'bounded' is decided against a budget of 20 s wall time and 1 GiB allocated bytes per Extract call; an overrun only counts when it repeats in an isolated process",
         "a panic is attributed to (extractor, innermost function of github.com/google/osv-scalibr on the panic stack); known findings are excluded by that call site only",
     ],
@@ -34,7 +34,7 @@ PROPS["C06"] = {
     "level_text": "Sampled exploration of trees/capabilities and of hostile tar streams, each decided by a snapshot oracle that does not depend on the implementation.",
     "level_note": "The jail leg is a static CGO_ENABLED=0 binary; if chroot is refused the depth bound alone protects the host and evidence says jail_active=false.",
     "legs": [
-        {"fam": "fuzzfam", "run": "^TestC06_scan$"},
+        {"fam": "fuzzfam", "run": "^TestC06_(scan|scanaux)$"},
         {"fam": "jailfam", "run": "^TestC06_image$", "cgo": "0"},
     ],
     "timeout": {"quick": 900, "thorough": 2400},
